@@ -232,17 +232,25 @@ def random_sequences(v, rng, n):
       t = rng.choice(own)
       if isinstance(t, fdl.Buildable):
         ch = rng.random()
+        # assignments and tag edits are valid on every parameter of the original, hence on a faithful copy
         try:
           if ch < 0.4:
             setattr(t, H.slot_name(rng.randint(1, 3)), rng.randint(20, 29))
           elif ch < 0.6:
             tagging.add_tag(t, H.slot_name(rng.randint(1, 3)), rng.choice(H.TAGS))
           elif ch < 0.8:
-            tagging.clear_tags(t, H.slot_name(rng.randint(1, 3)))
+            sl = H.slot_name(rng.randint(1, 3))
+            tagging.get_tags(t, sl)
+            tagging.clear_tags(t, sl)
           else:
-            delattr(t, H.slot_name(rng.randint(1, 3)))
-        except (AttributeError, ValueError):
-          pass
+            try:
+              delattr(t, H.slot_name(rng.randint(1, 3)))
+            except AttributeError:
+              pass          # (the argument is not set)
+        except Exception as e:  # pylint: disable=broad-except
+          v.mismatch({'clause': 'edit-on-copy-raises', 'kind': kind, 'edit': 'random'},
+                     {'orig': before, 'message': f'{type(e).__name__}: {str(e)[:200]}'})
+          break
       elif isinstance(t, list):
         t.append(31)
       elif isinstance(t, dict):
